@@ -6,6 +6,7 @@ import (
 	"cosmossdk.io/math"
 	"encoding/hex"
 	"fmt"
+	"os"
 	"runtime/debug"
 	"strconv"
 	"strings"
@@ -530,6 +531,10 @@ func (r *Runner) adminMsg(in *Input) sdk.Msg {
 	aid, ok := aidName[in.Aid]
 	if !ok {
 		aid = strings.TrimPrefix(in.Aid, "L:")
+	}
+	if in.Rpc == os.Getenv("ORB_FORGET_RPC") {
+		// self-test of the reflection path: treat a known RPC as one added later (default body)
+		return r.w.defaultMsg(in.Rpc, signer)
 	}
 	switch in.Rpc {
 	case "PauseProtocol":
